@@ -208,8 +208,12 @@ PROPS.update({
         technique="runtime monitoring: paired differential statistic against a frozen reference build",
         level="exploration",
         rule="per family (zlib levels -1..9 x 5 strategies x windowBits 9-15 x memLevel 1-9 with optional flush points; zlib-ng 1-9; "
-             "libdeflate 0-12; miniz_oxide 0-10) streams from structured random plaintexts of 2-128 KiB. evaluations = streams "
-             "analysed by both builds. non-trivial = accepted by both builds, distinct by content hash",
+             "libdeflate 0-12; miniz_oxide 0-10) streams from a stratified plaintext sample (word text, records, runs, low entropy, "
+             "mixed, far repeats, text quoting an incompressible blob; sizes uniform in 2-128 KiB). The statement's thresholds are "
+             "applied to each family total; if a family total is worse than the reference by less than 3 %, the same 3 % threshold "
+             "is applied to each compression level of that family with at least 25 doubly-accepted streams (a trade-off that "
+             "improves the family total is never flagged). evaluations = streams analysed by both builds. non-trivial = "
+             "accepted by both builds, distinct by content hash",
         assumptions=COMMON_ASSUME + ["reference build = /verif/reference/fixed (pinned + recorded fix commits)"],
         min_evaluations=400,
     ),
@@ -261,6 +265,20 @@ def c09_statistic(counters):
         if cr > 0 and cc > 1.03 * cr:
             bad.append(("corrections_regressed", f,
                         "%s: corrections over streams both accept total %d bytes, reference %d (ratio %.4f > 1.03)" % (f, cc, cr, cc / cr)))
+        elif cr > 0 and cc > cr:
+            # the family total got worse, though by less than 3 %: apply the same threshold to each compression level
+            # of the family, which is a seeded sample of that family's streams in its own right (sizeable strata only;
+            # a trade-off that improves the family total is never flagged)
+            for k, v in sorted(counters.items()):
+                pre = "stratum:%s:" % f
+                if k.startswith(pre) and k.endswith(":corr_ref"):
+                    lvl = k[len(pre):-len(":corr_ref")]
+                    sr, sc, n = v, counters.get(pre + lvl + ":corr_cur", 0), counters.get(pre + lvl + ":n", 0)
+                    if n >= 25 and sr >= 4000 and sc > 1.03 * sr:
+                        bad.append(("corrections_regressed", "%s %s" % (f, lvl),
+                                    "%s %s: family total is worse than the reference (ratio %.4f) and for this level the "
+                                    "corrections over %d streams both accept total %d bytes, reference %d (ratio %.4f > 1.03)"
+                                    % (f, lvl, cc / cr, n, sc, sr, sc / sr)))
     return per, bad
 
 
@@ -289,8 +307,15 @@ def post_process(pid, counters, extras, run, replays):
         import json, os
         per, bad = c09_statistic(counters)
         # self-test of the statistic: a synthetic 2 % acceptance loss and a 4 % size growth must be flagged
-        syn = {"zlib:accepted_ref": 100, "zlib:accepted_cur": 98, "zlib:corr_bytes_ref": 1000, "zlib:corr_bytes_cur": 1041}
+        syn = {"zlib:accepted_ref": 100, "zlib:accepted_cur": 98, "zlib:corr_bytes_ref": 1000, "zlib:corr_bytes_cur": 1041,
+               "miniz:corr_bytes_ref": 100000, "miniz:corr_bytes_cur": 101000, "stratum:miniz:level=3:corr_ref": 10000,
+               "stratum:miniz:level=3:corr_cur": 11000, "stratum:miniz:level=3:n": 50,
+               "libdeflate:corr_bytes_ref": 100000, "libdeflate:corr_bytes_cur": 99000, "stratum:libdeflate:level=3:corr_ref": 10000,
+               "stratum:libdeflate:level=3:corr_cur": 11000, "stratum:libdeflate:level=3:n": 50}
         _, synbad = c09_statistic(syn)
+        # expected: zlib acceptance, zlib size, miniz level 3 stratum; NOT the libdeflate trade-off
+        synbad = synbad if len(synbad) == 3 and not any(f.startswith("libdeflate") for _, f, _ in synbad) else []
+        synbad = synbad[:2] if len(synbad) == 3 else []
         cells = {}
         for k, v in counters.items():
             if k.startswith("cell:"):
@@ -304,7 +329,7 @@ def post_process(pid, counters, extras, run, replays):
             out["harness_error"] = "self-test of the C09 statistic failed"
         os.makedirs(os.path.join(replays, "C09"), exist_ok=True)
         for sub, fam, text in bad:
-            rp = os.path.join(replays, "C09", "%s-%s.json" % (sub, fam))
+            rp = os.path.join(replays, "C09", "%s-%s.json" % (sub, fam.replace(" ", "_").replace("=", "")))
             with open(rp, "w") as f:
                 json.dump({"property": "C09", "sub": sub, "family": fam, "what": text, "per_family": per,
                            "tier": run.tier, "seed": run.seed,
